@@ -2,6 +2,8 @@ package rules
 
 import (
 	"golang.org/x/tools/go/ssa"
+
+	. "htcheck/internal/core"
 )
 
 // resliceOrigin: v is (through phis and appends) a RE-SLICE of a list loaded from a struct field; returns that field address.
@@ -89,4 +91,82 @@ func storedInto(v ssa.Value) []*ssa.FieldAddr {
 	}
 	walk(v, 0)
 	return out
+}
+
+// writesThroughSlice: does fn (or an in-repo function it hands the slice to) write into the backing array of root, a
+// []byte value of fn? Followed through re-slicing and phis; a write is a store to an element, an append onto a value
+// that shares the array (`b[:0]` filtering in place), or a copy into it. Returns a description of the first write found.
+func writesThroughSlice(p *Program, fn *ssa.Function, root ssa.Value, skip ssa.Instruction, depth int) string {
+	derived := map[ssa.Value]bool{root: true}
+	for changed := true; changed; {
+		changed = false
+		for _, b := range fn.Blocks {
+			for _, in := range b.Instrs {
+				switch x := in.(type) {
+				case *ssa.Slice:
+					if derived[x.X] && !derived[x] {
+						derived[x] = true
+						changed = true
+					}
+				case *ssa.Phi:
+					for _, e := range x.Edges {
+						if derived[e] && !derived[x] {
+							derived[x] = true
+							changed = true
+						}
+					}
+				case *ssa.Call:
+					// append(derived, …) yields a value that may still share the array
+					if bi, ok := x.Call.Value.(*ssa.Builtin); ok && bi.Name() == "append" && len(x.Call.Args) > 0 && derived[x.Call.Args[0]] && !derived[x] {
+						derived[x] = true
+						changed = true
+					}
+				}
+			}
+		}
+	}
+	for _, b := range fn.Blocks {
+		for _, in := range b.Instrs {
+			if in == skip {
+				continue
+			}
+			switch x := in.(type) {
+			case *ssa.Store:
+				if ia, ok := x.Addr.(*ssa.IndexAddr); ok && derived[ia.X] {
+					return "an element of the buffer is written at " + p.InstrPos(x)
+				}
+			case ssa.CallInstruction:
+				cc := x.Common()
+				if bi, ok := cc.Value.(*ssa.Builtin); ok {
+					switch bi.Name() {
+					case "append":
+						if len(cc.Args) > 0 && derived[cc.Args[0]] {
+							return "append onto a slice that shares the buffer's array (in-place filter) at " + p.InstrPos(x)
+						}
+					case "copy":
+						if len(cc.Args) > 0 && derived[cc.Args[0]] {
+							return "copy into the buffer at " + p.InstrPos(x)
+						}
+					}
+					continue
+				}
+				hf := cc.StaticCallee()
+				if hf == nil || !InRepo(hf) || hf.Blocks == nil || depth >= 3 {
+					continue
+				}
+				off := 0
+				if cc.IsInvoke() {
+					off = 1
+				}
+				for i, a := range cc.Args {
+					if derived[a] && i+off < len(hf.Params) {
+						if w := writesThroughSlice(p, hf, hf.Params[i+off], nil, depth+1); w != "" {
+							return "handed to " + shortFn(hf) + " at " + p.InstrPos(x) + ", where " + w
+						}
+					}
+				}
+			}
+		}
+	}
+	return ""
 }
